@@ -34,6 +34,36 @@ theorem clientAnswer_no_panic (net : Net) (b : Beh) (h a : Nat) :
   · simp
   · exact Lumina.Props.C28.never_panics _ _
 
+/-- (S9) whatever completes a task with `Ok(hs)` — the client, or a foreign `Ok(vec![])` — hands the
+    session a prefix of the request -/
+theorem answer_ok (net : Net) (b : Beh) (h a : Nat) (hs : List Hdr) (hh : 1 ≤ h)
+    (hok : answer 32 true net b h a = some (.ok hs)) :
+    hs.length ≤ a ∧ hs.map ht = List.range' h hs.length := by
+  cases b with
+  | dropped => simp [answer] at hok
+  | emptyOk =>
+    simp only [answer, Option.some.injEq, Outcome.ok.injEq] at hok
+    subst hok
+    simp
+  | full => exact clientAnswer_ok net _ h a hs hh (by simpa [answer] using hok)
+  | atMost k => exact clientAnswer_ok net _ h a hs hh (by simpa [answer] using hok)
+  | notFound => exact clientAnswer_ok net _ h a hs hh (by simpa [answer] using hok)
+  | invalid => exact clientAnswer_ok net _ h a hs hh (by simpa [answer] using hok)
+
+theorem answer_no_panic (net : Net) (b : Beh) (h a : Nat) :
+    answer 32 true net b h a ≠ some .panic := by
+  cases b <;> simp [answer, clientAnswer_no_panic]
+
+/-- a progressing behaviour is one of the real client's: the answer is the client's -/
+theorem answer_progressing (net : Net) (b : Beh) (hb : b.progressing = true) (h a : Nat) :
+    answer 32 true net b h a = some (clientAnswer 32 true net b h a) := by
+  cases b <;> simp [answer, Beh.progressing] at hb ⊢
+
+/-- once the session has stopped running (a non-HeaderEx error was returned) the drive is over -/
+theorem drive_stopped (net : Net) (fuel j : Nat) (s : State Hdr) (h : s.status ≠ .running) :
+    drive 32 true net fuel j s = .done s j := by
+  cases fuel <;> simp [drive, h]
+
 theorem validated_map_ok {β : Type} (l : List β) (f : β → Hdr) :
     Lumina.Proofs.HeaderExClient.validated (l.map (fun x => ({ status := 1, decoded := some (f x) } : Resp)))
       = l.map f := by
@@ -93,6 +123,8 @@ theorem clientAnswer_progress (net : Net) (b : Beh) (hb : b.progressing = true) 
   cases b with
   | notFound => simp [Beh.progressing] at hb
   | invalid => simp [Beh.progressing] at hb
+  | emptyOk => simp [Beh.progressing] at hb
+  | dropped => simp [Beh.progressing] at hb
   | full =>
     refine ⟨a, ha, Nat.le_refl _, ?_⟩
     have hresps : peerResps net .full h a
@@ -119,12 +151,13 @@ theorem getD_mem {β : Type} (l : List β) (i : Nat) (d : β) (h : i < l.length)
   exact List.getElem_mem h
 
 /-- driving the session with the simulated client keeps the session invariant: no panic, and if
-    the drive ends the session has completed -/
+    the drive ends, either a non-HeaderEx error stopped the session (`failed`; S9: a dropped
+    responder) or the session has completed -/
 theorem drive_inv (net : Net) (r : Range) (hr : 1 ≤ r.1 ∧ r.1 ≤ r.2 ∧ r.2 ≤ Lumina.Model.Session.U64_MAX) :
     ∀ (fuel j : Nat) (s : State Hdr), Inv ht 64 r s → Full 8 s →
       drive 32 true net fuel j s ≠ .panic ∧
       ∀ s' steps, drive 32 true net fuel j s = .done s' steps →
-        Inv ht 64 r s' ∧ Full 8 s' ∧ s'.tasks = [] := by
+        s'.status = .failed ∨ (Inv ht 64 r s' ∧ Full 8 s' ∧ s'.tasks = []) := by
   intro fuel
   induction fuel with
   | zero =>
@@ -138,7 +171,7 @@ theorem drive_inv (net : Net) (r : Range) (hr : 1 ≤ r.1 ∧ r.1 ≤ r.2 ∧ r.
       obtain ⟨rfl, _⟩ := he
       rcases hc with hc | hc
       · exact absurd hinv.running hc
-      · exact ⟨hinv, hfull, List.isEmpty_iff.mp hc⟩
+      · exact Or.inr ⟨hinv, hfull, List.isEmpty_iff.mp hc⟩
     · exact ⟨by simp, by intro s' steps he; cases he⟩
   | succ fuel ih =>
     intro j s hinv hfull
@@ -151,7 +184,7 @@ theorem drive_inv (net : Net) (r : Range) (hr : 1 ≤ r.1 ∧ r.1 ≤ r.2 ∧ r.
       obtain ⟨rfl, _⟩ := he
       rcases hc with hc | hc
       · exact absurd hinv.running hc
-      · exact ⟨hinv, hfull, List.isEmpty_iff.mp hc⟩
+      · exact Or.inr ⟨hinv, hfull, List.isEmpty_iff.mp hc⟩
     · rename_i hc
       have hne : s.tasks ≠ [] := by
         intro e; apply hc; right; simp [e]
@@ -161,19 +194,33 @@ theorem drive_inv (net : Net) (r : Range) (hr : 1 ≤ r.1 ∧ r.1 ≤ r.2 ∧ r.
       generalize s.tasks.getD ((cyc net.order j 0) % s.tasks.length) (0, 0) = t at hmem ⊢
       have hin := task_in_range ht 64 r s hinv t hmem
       have ht1 : 1 ≤ t.1 := by omega
-      cases hans : clientAnswer 32 true net (cyc net.beh j .full) t.1 t.2 with
-      | panic => exact absurd hans (clientAnswer_no_panic _ _ _ _)
-      | ok hs =>
+      cases hans : answer 32 true net (cyc net.beh j .full) t.1 t.2 with
+      | none =>
+        -- the responder was dropped: `run` returns the non-HeaderEx error
         simp only
-        obtain ⟨hl, hp⟩ := clientAnswer_ok net _ t.1 t.2 hs ht1 hans
-        have hadm : AdmissibleEv ht s (.ok t.1 t.2 hs) := ⟨hmem, hl, hp⟩
-        obtain ⟨i1, i2⟩ := inv_step ht 64 8 r ⟨hr.2.1, hr.2.2⟩ s _ hinv hfull hadm
-        exact ih (j + 1) _ i1 i2
-      | err e =>
-        simp only
-        have hadm : AdmissibleEv ht s (.err t.1 t.2) := hmem
-        obtain ⟨i1, i2⟩ := inv_step ht 64 8 r ⟨hr.2.1, hr.2.2⟩ s _ hinv hfull hadm
-        exact ih (j + 1) _ i1 i2
+        have hst : (step s (.fatal t.1 t.2)).status = .failed := by
+          simp [step, hinv.running, Ev.req, hmem]
+        have hnr : (step s (.fatal t.1 t.2)).status ≠ .running := by rw [hst]; decide
+        rw [drive_stopped net fuel (j + 1) _ hnr]
+        refine ⟨by simp, ?_⟩
+        intro s' steps he
+        simp only [Driven.done.injEq] at he
+        obtain ⟨rfl, _⟩ := he
+        exact Or.inl hst
+      | some o =>
+        cases o with
+        | panic => exact absurd hans (answer_no_panic _ _ _ _)
+        | ok hs =>
+          simp only
+          obtain ⟨hl, hp⟩ := answer_ok net _ t.1 t.2 hs ht1 hans
+          have hadm : AdmissibleEv ht s (.ok t.1 t.2 hs) := ⟨hmem, hl, hp⟩
+          obtain ⟨i1, i2⟩ := inv_step ht 64 8 r ⟨hr.2.1, hr.2.2⟩ s _ hinv hfull hadm
+          exact ih (j + 1) _ i1 i2
+        | err e =>
+          simp only
+          have hadm : AdmissibleEv ht s (.err t.1 t.2) := hmem
+          obtain ⟨i1, i2⟩ := inv_step ht 64 8 r ⟨hr.2.1, hr.2.2⟩ s _ hinv hfull hadm
+          exact ih (j + 1) _ i1 i2
 
 /-- every received header is the served chain's header of its height -/
 def ChainOnly (s : State Hdr) : Prop := ∀ x ∈ s.responses.flatten, x = chainHdr x.height
@@ -217,7 +264,7 @@ theorem drive_served (net : Net) (r : Range)
       have hU : Lumina.Model.Session.U64_MAX = U64_MAX := rfl
       obtain ⟨m, hm1, hma, hans⟩ := clientAnswer_progress net _ (hprog j) t.1 t.2 (by omega) hamt.1
         (by simp only [PEER_CAP]; omega) (by omega) (by omega)
-      rw [hans]
+      rw [answer_progressing net _ (hprog j), hans]
       simp only
       have hadm : AdmissibleEv ht s (.ok t.1 t.2 ((List.range' t.1 m).map chainHdr)) :=
         ⟨hmem, by simpa using hma, by simp [chainHdr, Function.comp_def]⟩
